@@ -188,7 +188,9 @@ def conformance(rep, scoped_cases, monitors_for=None, stride=1):
     res, complete = engine.parallel_map(work, items)
     bad = [r for r in res if r and r[0] == "diff"]
     if bad:
-        raise HarnessError("LIGHT and FULL modes diverge: %s" %
-                           json.dumps(bad[0][1:], default=repr)[:800])
+        # decided by the reporter: a note next to replayable violations,
+        # a harness error (exit 2) otherwise
+        rep.soft_errors.append("LIGHT and FULL modes diverge: %s" %
+                               json.dumps(bad[0][1:], default=repr)[:800])
     rep.traces_validated += sum(1 for r in res if r and r[0] == "same")
     return len(items)
